@@ -5,6 +5,9 @@ mod common;
 mod hc;
 mod hc_random;
 mod hc_hostile;
+mod hc_script;
+mod sess;
+mod sess_random;
 
 use common::*;
 use std::collections::HashMap;
@@ -78,6 +81,47 @@ fn main() {
             }
             progress(&progress_path, "done");
             eprintln!("hc-hostile: runs={} injected={} dead={} lines={}", runs, inj, dead, tr.lines);
+        }
+        "hc-script" => {
+            // --in file.ndjson: one scripted run per line; run index = line number
+            let input = m.get("in").cloned().unwrap_or_default();
+            let text = std::fs::read_to_string(&input).unwrap_or_else(|e| { eprintln!("TOOL-ERROR: {}: {}", input, e); std::process::exit(2); });
+            let start = geti(&m, "start", 0);
+            let runs = geti(&m, "runs", u64::MAX / 2);
+            let mut tr = Trace::create(&out);
+            let mut n = 0;
+            let mut dead = 0;
+            for (i, line) in text.lines().enumerate() {
+                let i = i as u64;
+                if i < start || i >= start.saturating_add(runs) || line.trim().is_empty() {
+                    continue;
+                }
+                progress(&progress_path, &format!("{}", i));
+                let spec: serde_json::Value = serde_json::from_str(line).unwrap_or_else(|e| { eprintln!("TOOL-ERROR: bad script line {}: {}", i, e); std::process::exit(2); });
+                let (_, d) = hc_script::run_script(&mut tr, i, &spec);
+                n += 1;
+                dead += d as u64;
+            }
+            progress(&progress_path, "done");
+            eprintln!("hc-script: runs={} dead={} lines={}", n, dead, tr.lines);
+        }
+        "sess-random" => {
+            let seed = geti(&m, "seed", 1);
+            let runs = geti(&m, "runs", 10);
+            let start = geti(&m, "start", 0);
+            let prof = sess_random::sprofile_from(m.get("profile").map(|s| s.as_str()).unwrap_or("handshake"));
+            let mut tr = Trace::create(&out);
+            let mut wire = 0;
+            let mut dead = 0;
+            for i in start..start + runs {
+                progress(&progress_path, &format!("{}", i));
+                let s = sess_random::run_sess(&mut tr, i, mix(seed ^ 0x5E55, i), prof);
+                tr.flush();
+                wire += s.wire;
+                dead += s.dead as u64;
+            }
+            progress(&progress_path, "done");
+            eprintln!("sess-random: runs={} wire={} dead={} lines={}", runs, wire, dead, tr.lines);
         }
         _ => {
             eprintln!("usage: uvh <hc-random|...> [--key value]...");
